@@ -91,7 +91,7 @@ impl Check for UdpDemux {
         "C04"
     }
     fn rule(&self) -> String {
-        "generated: 1..5 machines on 1..2 networks (MTU 100..1500), ARP on all machines or on none, each machine with 1..2 own addresses and 1..4 recording applications that bind sets of (address in {own addresses, 0.0.0.0, 255.255.255.255, occasionally a foreign address}, port from a pool of 3) incl. deliberate second binds of an already bound endpoint; 1..8 datagrams (sender machine and local address, whose route is a unicast MAC / an unknown MAC / link broadcast / ARP resolution, destination (A, P) from the bound and unbound endpoints, payload 0 / small / MTU-28 / MTU-27 bytes); oracle: reference delivery model - for every machine the frame reaches, the receiver is the application bound to (A,P), else the one bound to (0.0.0.0,P), else nobody; the multiset of recorded demux calls (machine, application, payload, source address+port, destination address+port from the Control headers) equals the model's; a second bind of a bound endpoint is refused and the first binding keeps receiving; an oversize payload is refused at send and never recorded. non-trivial: the destination port has both an exact and a wildcard binding on a reached machine, or a reached machine has a binding that must not match (other port / other specific address). distinct: hash of decoded configuration".into()
+        "generated: 1..5 machines on 1..2 networks (MTU 100..1500, in 1/60 of the cases 65535), ARP on all machines or on none, each machine with 1..2 own addresses and 1..4 recording applications that bind sets of (address in {own addresses, 0.0.0.0, 255.255.255.255, occasionally a foreign address}, port from a pool of 3) incl. deliberate second binds of an already bound endpoint, and on a third of the machines 1..2 further binds made while the simulation runs (at x.5 ms; datagrams are sent and delivered at whole milliseconds); 1..8 datagrams, a third of them on the flow (same source and destination endpoints) of an earlier one at another time (sender machine and local address, whose route is a unicast MAC / an unknown MAC / link broadcast / ARP resolution, destination (A, P) from the bound and unbound endpoints, payload 0 / small / MTU-28 / MTU-27 bytes); oracle: reference delivery model - for every machine the frame reaches, the receiver is the application bound to (A,P) at the time of the delivery, else the one bound to (0.0.0.0,P), else nobody; the multiset of recorded demux calls (machine, application, payload, source address+port, destination address+port from the Control headers) equals the model's; a second bind of a bound endpoint is refused and the first binding keeps receiving; an oversize payload is refused at send and never recorded. non-trivial: the destination port has both an exact and a wildcard binding on a reached machine, or a reached machine has a binding that must not match (other port / other specific address). distinct: hash of decoded configuration".into()
     }
     fn assumptions(&self) -> Vec<String> {
         vec![
@@ -103,8 +103,10 @@ impl Check for UdpDemux {
         400
     }
     fn run(&self, e: &mut Entropy, ctx: &mut Ctx) -> Result<(), Failure> {
+        let legacy = ctx.legacy_layout;
         let nnets = 1 + e.choose(2);
-        let mtus: Vec<u16> = (0..nnets).map(|_| 100 + e.choose(1401) as u16).collect();
+        // now and then a network with the largest possible MTU: datagrams that fill a 65535-byte IPv4 packet
+        let mtus: Vec<u16> = (0..nnets).map(|_| if !legacy && e.chance(1, 60) { 65535 } else { 100 + e.choose(1401) as u16 }).collect();
         let nm = 1 + e.choose(5);
         let arp = e.chance(1, 3);
         let ports = [7u16, 9, 4000];
@@ -148,6 +150,25 @@ impl Check for UdpDemux {
             }
             binds.push(apps);
         }
+        // binds made while datagrams are already flowing: (machine, app, time, endpoint); times are x.5 ms, sends and
+        // deliveries happen at whole milliseconds, so the order of a bind and a delivery is never ambiguous
+        let mut late: Vec<(usize, usize, Duration, Endpoint)> = vec![];
+        if !legacy {
+            for m in 0..nm {
+                if e.chance(1, 3) {
+                    for _ in 0..(1 + e.choose(2)) {
+                        let app = e.choose(binds[m].len());
+                        let address = match e.weighted(&[5, 3]) {
+                            0 => addrs[m][e.choose(addrs[m].len())],
+                            _ => Ipv4Address::CURRENT_NETWORK,
+                        };
+                        let ep = Endpoint::new(address, ports[e.choose(3)]);
+                        all_eps.push(ep);
+                        late.push((m, app, Duration::from_micros(500 + 1000 * e.choose(25) as u64), ep));
+                    }
+                }
+            }
+        }
         // model of bindings: first successful bind per (machine, endpoint) wins (apps start in unspecified
         // order, so a contested endpoint is resolved from the recorded bind results after the run)
         // sends
@@ -163,6 +184,14 @@ impl Check for UdpDemux {
         // each (machine, local address) has one route; decide routes lazily
         let mut routes: BTreeMap<(usize, usize), (usize, MacPolicy)> = BTreeMap::new();
         for tag in 0..nsends {
+            // another datagram of an earlier flow (same source and destination endpoints) at another time
+            if !legacy && tag > 0 && e.chance(1, 3) {
+                let k = e.choose(sends.len());
+                let (m, local_idx, slot, policy, local, remote, len) = (sends[k].m, sends[k].local_idx, sends[k].slot, sends[k].policy, sends[k].send.local, sends[k].send.remote, sends[k].send.payload.len().max(4));
+                let tagv = 0xC400_0000 + tag as u32;
+                sends.push(S { m, local_idx, slot, policy, send: UdpSend { at_ms: e.choose(30) as u64, local, remote, payload: udp_payload(tagv, len), tag: tagv } });
+                continue;
+            }
             let m = e.choose(nm);
             let local_idx = e.choose(addrs[m].len());
             let (slot, policy) = *routes.entry((m, local_idx)).or_insert_with(|| {
@@ -209,13 +238,14 @@ impl Check for UdpDemux {
                 _ => mtu - 27,
             };
             let tagv = 0xC400_0000 + tag as u32;
-            sends.push(S { m, local_idx, slot, policy, send: UdpSend { at_ms: e.choose(20) as u64, local: Endpoint::new(addrs[m][local_idx], 5000 + tag as u16), remote, payload: udp_payload(tagv, len), tag: tagv } });
+            sends.push(S { m, local_idx, slot, policy, send: UdpSend { at_ms: e.choose(if legacy { 20 } else { 30 }) as u64, local: Endpoint::new(addrs[m][local_idx], 5000 + tag as u16), remote, payload: udp_payload(tagv, len), tag: tagv } });
         }
 
         // ---- build
         let wire = Wire::new();
         let log: DemuxLog = Default::default();
         let bind_results = Arc::new(Mutex::new(vec![]));
+        let late_results: LateBindLog = Default::default();
         let send_results: Arc<Mutex<Vec<UdpSendResult>>> = Default::default();
         let nets: Vec<Arc<Network>> = mtus
             .iter()
@@ -249,7 +279,8 @@ impl Check for UdpDemux {
                 m = m.with(Arp::new());
             }
             for (ai, eps) in binds[mi].iter().enumerate() {
-                m = with_recorder(m, ai, mi, &wire, &log, eps.clone(), &bind_results);
+                let lb: Vec<(Duration, Endpoint)> = late.iter().filter(|l| l.0 == mi && l.1 == ai).map(|l| (l.2, l.3)).collect();
+                m = with_recorder_late(m, ai, mi, &wire, &log, eps.clone(), &bind_results, lb, &late_results);
             }
             m = m.with(UdpSender { sends: sends.iter().filter(|s| s.m == mi).map(|s| s.send.clone()).collect(), results: send_results.clone(), wire: wire.clone() });
             machines.push(m.arc());
@@ -260,7 +291,7 @@ impl Check for UdpDemux {
 
         if ctx.want_desc {
             ctx.desc = Some(json!({
-                "mtus": mtus, "arp": arp, "attachments": attach,
+                "mtus": mtus, "arp": arp, "attachments": attach, "late_binds": late.iter().map(|l| format!("m{} app{} at {:?}: {}:{}", l.0, l.1, l.2, l.3.address, l.3.port)).collect::<Vec<_>>(),
                 "binds": binds.iter().enumerate().map(|(m, a)| a.iter().enumerate().map(|(i, eps)| format!("m{m} app{i}: {:?}", eps.iter().map(|e| format!("{}:{}", e.address, e.port)).collect::<Vec<_>>())).collect::<Vec<_>>()).collect::<Vec<_>>(),
                 "sends": sends.iter().map(|s| format!("m{} t={}ms {}:{} -> {}:{} len {} via slot {} {:?}", s.m, s.send.at_ms, s.send.local.address, s.send.local.port, s.send.remote.address, s.send.remote.port, s.send.payload.len(), s.slot, s.policy)).collect::<Vec<_>>(),
                 "frames": wire.snapshot().iter().map(|f| format!("t={:?} net {} {:?} {}->{:?} {} bytes delivered to {:?}", f.t, f.net, f.proto, f.sender, f.dest, f.bytes.len(), f.deliveries.iter().map(|d| d.0).collect::<Vec<_>>())).collect::<Vec<_>>(),
@@ -280,6 +311,34 @@ impl Check for UdpDemux {
                 second_bind = true;
             }
         }
+        // late binds in the order in which they were made: (machine, key) -> (app, since)
+        let mut late_owner: Vec<((usize, [u8; 4], u16), usize, Duration)> = vec![];
+        let mut lr = late_results.lock().unwrap().clone();
+        lr.sort_by_key(|l| l.4);
+        ensure!(lr.len() == late.len(), "harness", "late_bind_results", "{} late bind results for {} late binds", lr.len(), late.len());
+        for (m, app, ep, ok, t) in &lr {
+            let key = (*m, ep.address.to_bytes(), ep.port);
+            let held = owner.contains_key(&key) || late_owner.iter().any(|l| l.0 == key);
+            if *ok {
+                ensure!(!held, "duplicate_bind_refused", "second_bind_accepted", "machine {m}: endpoint {ep:?} was bound at {t:?} by app {app} although it was bound already");
+                late_owner.push((key, *app, *t));
+                ctx.class("bind_while_running");
+            } else {
+                ensure!(held, "duplicate_bind_refused", "first_bind_refused", "machine {m}: bind of {ep:?} by app {app} at {t:?} was refused although nobody holds it");
+                second_bind = true;
+            }
+        }
+        let owner_at = |m: usize, addr: [u8; 4], port: u16, t: Duration| -> (Option<usize>, bool) {
+            // (owner, ambiguous: a bind of this endpoint was made in the same instant)
+            if let Some(a) = owner.get(&(m, addr, port)) {
+                return (Some(*a), false);
+            }
+            match late_owner.iter().find(|l| l.0 == (m, addr, port)) {
+                Some(l) if l.2 < t => (Some(l.1), false),
+                Some(l) if l.2 == t => (None, true),
+                _ => (None, false),
+            }
+        };
         let total_binds: usize = binds.iter().map(|a| a.iter().map(|e| e.len()).sum::<usize>()).sum();
         ensure!(br.len() == total_binds, "harness", "bind_results", "{} bind results for {} binds", br.len(), total_binds);
 
@@ -289,6 +348,7 @@ impl Check for UdpDemux {
         let frames = wire.snapshot();
         let mut nontrivial = false;
         let mut expected: Vec<(usize, usize, u32)> = vec![]; // (machine, app, tag)
+        let mut ambiguous: Vec<(usize, u32)> = vec![]; // (machine, tag): a bind of the endpoint in the instant of the delivery
         for s in &sends {
             let net = attach[s.m][s.slot];
             let mtu = mtus[net] as usize;
@@ -302,14 +362,14 @@ impl Check for UdpDemux {
                 .filter(|f| f.proto == Proto::Ipv4 && f.bytes.len() == 28 + s.send.payload.len() && f.bytes[12..16] == s.send.local.address.to_bytes() && f.bytes[20..22] == s.send.local.port.to_be_bytes() && f.bytes[28..] == s.send.payload[..])
                 .collect();
             let arp_failed = s.policy == MacPolicy::ArpResolve && carrying.is_empty() && r.map(|r| !r.opened).unwrap_or(false);
-            let mut reached: Vec<usize> = vec![];
+            let mut reached: Vec<(usize, Duration)> = vec![];
             for f in &carrying {
                 let ni = net_ids.iter().position(|n| *n == f.net).unwrap();
-                for (tap, _) in &f.deliveries {
+                for (tap, t_del) in &f.deliveries {
                     for o in 0..nm {
                         if let Some(si) = attach[o].iter().position(|n| *n == ni) {
                             if macs[o][si] == *tap && !(f.dest.is_none() || f.dest == Some(Network::BROADCAST_MAC)) || (macs[o][si] == *tap && o != s.m) {
-                                reached.push(o);
+                                reached.push((o, *t_del));
                             }
                         }
                     }
@@ -332,17 +392,25 @@ impl Check for UdpDemux {
             if oversize || arp_failed {
                 continue;
             }
-            for o in reached {
-                let exact = owner.get(&(o, s.send.remote.address.to_bytes(), s.send.remote.port));
-                let wild = owner.get(&(o, [0, 0, 0, 0], s.send.remote.port));
+            for (o, t_del) in reached {
+                let (exact, amb1) = owner_at(o, s.send.remote.address.to_bytes(), s.send.remote.port, t_del);
+                let (wild, amb2) = owner_at(o, [0, 0, 0, 0], s.send.remote.port, t_del);
+                if amb1 || amb2 {
+                    ambiguous.push((o, s.send.tag));
+                    continue;
+                }
                 if let Some(app) = exact.or(wild) {
-                    expected.push((o, *app, s.send.tag));
+                    expected.push((o, app, s.send.tag));
+                }
+                if late_owner.iter().any(|l| l.0 .0 == o && l.0 .2 == s.send.remote.port && l.2 < t_del) {
+                    nontrivial = true;
+                    ctx.class("delivered_after_a_bind_made_while_running");
                 }
                 if exact.is_some() && wild.is_some() {
                     nontrivial = true;
                     ctx.class("exact_and_wildcard_compete");
                 }
-                let has_nonmatching = owner.keys().any(|k| k.0 == o && (k.2 != s.send.remote.port || (k.1 != s.send.remote.address.to_bytes() && k.1 != [0, 0, 0, 0])));
+                let has_nonmatching = owner.keys().chain(late_owner.iter().filter(|l| l.2 < t_del).map(|l| &l.0)).any(|k| k.0 == o && (k.2 != s.send.remote.port || (k.1 != s.send.remote.address.to_bytes() && k.1 != [0, 0, 0, 0])));
                 if has_nonmatching {
                     nontrivial = true;
                     ctx.class("reached_machine_has_non_matching_binding");
@@ -382,13 +450,14 @@ impl Check for UdpDemux {
             ensure!(ip.destination == s.send.remote.address && udp.destination == s.send.remote.port, "endpoints_attached", "destination", "datagram {:#x}: destination {}:{} attached, sent to {}:{}", tag, ip.destination, udp.destination, s.send.remote.address, s.send.remote.port);
             observed.push((d.machine, d.app, tag));
         }
+        observed.retain(|x| !ambiguous.contains(&(x.0, x.2)));
         expected.sort();
         observed.sort();
         if expected != observed {
             let missing: Vec<_> = expected.iter().filter(|x| !observed.contains(x)).collect();
             let extra: Vec<_> = observed.iter().filter(|x| !expected.contains(x)).collect();
             let tag = if !extra.is_empty() { "delivered_to_wrong_listener" } else { "not_delivered" };
-            return Err(Failure::new("delivery_model", tag, format!("(machine, app, datagram) expected but missing: {missing:?}; delivered but not expected: {extra:?}; bindings {owner:?}")));
+            return Err(Failure::new("delivery_model", tag, format!("(machine, app, datagram) expected but missing: {missing:?}; delivered but not expected: {extra:?}; bindings {owner:?}, made while running {late_owner:?}")));
         }
         ctx.nontrivial = nontrivial;
         if second_bind {
